@@ -128,8 +128,115 @@ func evalIntVal(info *types.Info, e ast.Expr, env map[types.Object]int64) (int64
 			v, ok := env[obj]
 			return v, ok
 		}
+	case *ast.BinaryExpr:
+		l, ok1 := evalIntVal(info, x.X, env)
+		r, ok2 := evalIntVal(info, x.Y, env)
+		if !ok1 || !ok2 {
+			return 0, false
+		}
+		switch x.Op {
+		case token.ADD:
+			return l + r, true
+		case token.SUB:
+			return l - r, true
+		}
+	case *ast.CallExpr:
+		// len(<string parameter>): the length is kept in env under the parameter's object, negated space
+		if id, ok := x.Fun.(*ast.Ident); ok && id.Name == "len" && len(x.Args) == 1 {
+			if _, isBuiltin := info.Uses[id].(*types.Builtin); isBuiltin {
+				if arg, ok := x.Args[0].(*ast.Ident); ok {
+					if obj := info.Uses[arg]; obj != nil {
+						if v, ok := env[lenKey{obj}]; ok {
+							return v, true
+						}
+					}
+				}
+			}
+		}
 	}
 	return 0, false
+}
+
+// lenKey: env key under which the length of a string parameter is kept.
+type lenKey struct{ types.Object }
+
+func (lenKey) Exported() bool { return false }
+
+// evalStringPred: runs a predicate func(name string) bool on a concrete ASCII string. The body may be
+//
+//	x := <int expr over len(name) and constants> ...   (any number)
+//	for i, v := range name { if / continue / return <bool const> }
+//	return <bool const>
+func (c *Ctx) evalStringPred(f *types.Func, str string) (res bool, ok bool) {
+	fd := c.Decl(f)
+	if fd == nil || fd.Body == nil || fd.Type.Params == nil || fd.Type.Params.NumFields() != 1 || len(fd.Type.Params.List[0].Names) != 1 {
+		return false, false
+	}
+	info := c.InfoFor(fd)
+	param := info.Defs[fd.Type.Params.List[0].Names[0]]
+	env := map[types.Object]int64{lenKey{param}: int64(len(str))}
+	for _, st := range fd.Body.List {
+		switch x := st.(type) {
+		case *ast.AssignStmt:
+			if x.Tok != token.DEFINE || len(x.Lhs) != 1 || len(x.Rhs) != 1 {
+				return false, false
+			}
+			id, isID := x.Lhs[0].(*ast.Ident)
+			if !isID {
+				return false, false
+			}
+			v, okv := evalIntVal(info, x.Rhs[0], env)
+			if !okv {
+				return false, false
+			}
+			env[info.Defs[id]] = v
+		case *ast.RangeStmt:
+			if id, isID := x.X.(*ast.Ident); !isID || info.Uses[id] != param {
+				return false, false
+			}
+			var kobj, vobj types.Object
+			if ki, ok := x.Key.(*ast.Ident); ok && ki.Name != "_" {
+				kobj = info.Defs[ki]
+			}
+			if x.Value != nil {
+				if vi, ok := x.Value.(*ast.Ident); ok && vi.Name != "_" {
+					vobj = info.Defs[vi]
+				}
+			}
+			for i := 0; i < len(str); i++ {
+				if str[i] >= 0x80 {
+					return false, false // ASCII only: bytes and runes coincide
+				}
+				if kobj != nil {
+					env[kobj] = int64(i)
+				}
+				if vobj != nil {
+					env[vobj] = int64(str[i])
+				}
+				switch evalLoopBody(info, x.Body.List, env) {
+				case loNext, loFall:
+				case loRetTrue:
+					return true, true
+				case loRetFalse:
+					return false, true
+				default:
+					return false, false
+				}
+			}
+		case *ast.ReturnStmt:
+			if len(x.Results) != 1 {
+				return false, false
+			}
+			tv, okk := info.Types[x.Results[0]]
+			if !okk || tv.Value == nil || tv.Value.Kind() != constant.Bool {
+				return false, false
+			}
+			return constant.BoolVal(tv.Value), true
+		default:
+			return false, false
+		}
+	}
+	return false, false
 }
 
 // rangeLoopClasses: for a function whose body is `for i, v := range <param> { ... } return true`,
